@@ -92,6 +92,7 @@ type Lemma struct {
 	Mode string
 	Line int
 	Use  bool
+	For  []string // restrict an axiom to these functions
 }
 
 type GhostVar struct{ Name, Type string }
@@ -222,12 +223,19 @@ func ParseContractFile(path, pkgPath string) (*PkgContracts, error) {
 			name := strings.TrimSpace(rest[:i])
 			mode := ""
 			use := false
+			var forFns []string
 			if f := strings.Fields(name); len(f) >= 2 {
 				name = f[0]
+				inFor := false
 				for _, x := range f[1:] {
-					if x == "use" {
+					switch {
+					case x == "for":
+						inFor = true
+					case inFor:
+						forFns = append(forFns, strings.Trim(x, ","))
+					case x == "use":
 						use = true // a lemma proved as an obligation AND made available to the function VCs of its package
-					} else {
+					default:
 						mode = x
 					}
 				}
@@ -236,7 +244,7 @@ func ParseContractFile(path, pkgPath string) (*PkgContracts, error) {
 			if err != nil {
 				return nil, fail(it, "%v", err)
 			}
-			l := Lemma{Name: name, E: e, Src: strings.TrimSpace(rest[i+1:]), Mode: mode, Line: it.line, Use: use}
+			l := Lemma{Name: name, E: e, Src: strings.TrimSpace(rest[i+1:]), Mode: mode, Line: it.line, Use: use, For: forFns}
 			if w == "axiom" {
 				pc.Axioms = append(pc.Axioms, l)
 			} else {
